@@ -4,7 +4,7 @@ from vlib import core
 from checks import codec_common as cc
 
 THEOREMS = ['table_unchanged', 'param_consts', 'tv_tlv_ranges', 'header_kind', 'tv_params_fixed', 'tlv_length_exact', 'tv_header',
-            'layout_wf', 'encode_eq_layout', 'encode_eq_layout_gen', 'implSize_mod', 'implSize_exact_partial', 'implSize_exact_counterexample',
+            'layout_wf', 'encode_eq_layout', 'encode_eq_layout_gen', 'implSize_exact', 'implSize_lt', 'fits_length_lt', 'implSize_mod', 'oversized_rejected',
             'tlv_lengths_exact', 'tlv_lengths_exact_param', 'tlv_lengths_exact_encode', 'decode_layout_of_roundtrip']
 MODULES = ['LLRP.Model.Layout', 'LLRP.Model.LayoutWF', 'LLRP.Model.Codec', 'LLRP.Model.Schema', 'LLRP.Model.Bytes',
            'LLRP.Proofs.Bytes', 'LLRP.Proofs.LayoutFields', 'LLRP.Proofs.LayoutParam', 'LLRP.Proofs.LayoutBlocks']
